@@ -19,16 +19,22 @@ Definition FlZ : Fl Z :=
 Definition regZ (v : Z) : Reg Z := mkReg K64 v 0 0 [] [].
 Definition st_abs : St (A := Z) := fun k => match k with O => regZ 0 | _ => regZ (-4) end.
 
-(* c := 0 (fresh); c.Abs(a) with a = -4 gives 4, c.ABS(a) gives -4: ABS looks at the receiver's sign *)
-Lemma ABS_refuted : ~ scalar_interchangeable FlZ (fun x => x) (PAbs 0 1).
-Proof.
-  intros H. specialize (H st_abs).
-  assert (G : match run_generic FlZ (fun x => x) (PAbs 0 1) st_abs with Ok s => rval (s 0%nat) | Panic _ => 0%Z end = 4%Z)
-    by (vm_compute; reflexivity).
-  assert (K : match run_concrete FlZ (fun x => x) (PAbs 0 1) st_abs with Ok s => rval (s 0%nat) | Panic _ => 0%Z end = (-4)%Z)
-    by (vm_compute; reflexivity).
-  rewrite H in K. rewrite G in K. discriminate.
-Qed.
+(* REGRESSION (round-1 witness of F-C09-ABS, fixed by 2fc8894): c := 0 (fresh); a = -4.  Before the fix c.ABS(a)
+   looked at the receiver's sign and stored -4; at HEAD both members store 4 *)
+Lemma ABS_round1_witness_agrees :
+  match run_generic FlZ (fun x => x) (PAbs 0 1) st_abs with Ok s => rval (s 0%nat) | Panic _ => 0%Z end = 4%Z /\
+  match run_concrete FlZ (fun x => x) (PAbs 0 1) st_abs with Ok s => rval (s 0%nat) | Panic _ => 0%Z end = 4%Z.
+Proof. vm_compute. split; reflexivity. Qed.
+(* REGRESSION (round-1 witness of F-C09-SETORD / F-SETORD, fixed by d9fca78): receiver Order 1 N 1, operand Order 2
+   N 1: Set and SET both reallocate (no index panic) and copy the Hessian *)
+Definition st_setord : St (A := Z) :=
+  fun k => match k with O => mkReg K64 1 1 1 [7%Z] [] | _ => mkReg K64 2 2 1 [3%Z] [[5%Z]] end.
+Lemma SET_round1_witness_agrees :
+  match run_generic FlZ (fun x => x) (PSet 0 1) st_setord with Ok s => Some (rorder (s 0%nat), rderiv (s 0%nat), rhess (s 0%nat)) | Panic _ => None end
+    = Some (2%nat, [3%Z], [[5%Z]]) /\
+  match run_concrete FlZ (fun x => x) (PSet 0 1) st_setord with Ok s => Some (rorder (s 0%nat), rderiv (s 0%nat), rhess (s 0%nat)) | Panic _ => None end
+    = Some (2%nat, [3%Z], [[5%Z]]).
+Proof. vm_compute. split; reflexivity. Qed.
 
 Open Scope Z_scope.
 (* a = [] (n = 1), b = [1 at 0], epsilon = 2.5: Equals says true (|0 - 1| < 2.5), EQUALS says false
